@@ -16,7 +16,12 @@ enumerated configuration and for ALL row contents, addresses, data and enables:
   en-width       WritePort.Signature: en_width * granularity == width (zero-width / None cases)
   init           the reset state holds the declared initial contents (wrapped as C10 states)
 The storage contracts (_PyMemoryState.read/write/commit) are used through their contracts, proved in
-C08; testbench row access to the same storage is C05's `row` obligations.  RTLIL agreement: C04.
+C08; testbench row access to the same storage is C05's `row` obligations.
+  behaviour      the netlist of the real build_netlist (cell semantics of spec/nir_eval.py) and the RTLIL of the real
+                 rtlil.convert (parsed; $memwr_v2 / $memrd_v2 under spec/rtlil_eval.py) give, for ALL rows, addresses,
+                 data, enables and read-register contents, the same asynchronous read data, next rows and next read
+                 registers as the reference above -- the simulator, the netlist and the RTLIL agree per configuration
+  rtlil          closed parameter obligations on the emitted memory cells
 """
 import itertools
 
@@ -25,6 +30,7 @@ from pyvc.sym import SInt, to_sint, And, Or, Not, Implies, ite
 from pyvc import runner, source
 from spec.sem import mask, norm, shape_range
 from harness.kernel import Design
+from checks import c04
 
 PROPERTY = "C11"
 
@@ -56,7 +62,11 @@ def functions():
             source.describe("amaranth/lib/memory.py", "WritePort.Signature.__init__", arith="closed", bound="widths <= 12"),
             source.describe("amaranth/hdl/_mem.py", "MemoryInstance._WritePort._granularity", arith="closed", bound="-"),
             source.describe("amaranth/hdl/_mem.py", "MemoryInstance.read_port", arith="-", bound="-"),
-            source.describe("amaranth/hdl/_mem.py", "MemoryInstance.write_port", arith="-", bound="-")]
+            source.describe("amaranth/hdl/_mem.py", "MemoryInstance.write_port", arith="-", bound="-")] + \
+        [source.describe("amaranth/hdl/_ir.py", q, arith="netlist evaluated symbolically", bound="configs enumerated")
+         for q in ("NetlistEmitter.emit_memory", "NetlistEmitter.emit_write_port", "NetlistEmitter.emit_read_port")] + \
+        [source.describe("amaranth/back/rtlil.py", q, arith="RTLIL evaluated symbolically", bound="configs enumerated")
+         for q in ("ModuleEmitter.emit_memory", "ModuleEmitter.emit_write_port", "ModuleEmitter.emit_read_port")]
 
 
 # configuration: (width, signed, depth, write ports [(domain, granularity)], read ports [(domain, transparent idx tuple)])
@@ -95,13 +105,14 @@ def configs(tier):
 def tasks(tier):
     ts = [("config", k) for k in range(len(configs(tier)))] + [("en-width",)]
     ts += [("rtlil", k) for k in range(len(configs(tier)))]
+    ts += [("behaviour", k) for k in range(len(configs(tier)))]
     # the storage class itself (the contracts the configurations above rely on)
     ts += [("storage", 2, False, 2), ("storage", 2, True, 2)]
     return ts
 
 
 def canaries(tier):
-    return [("canary-transparency",)]
+    return [("canary-transparency",), ("canary-behaviour",)]
 
 
 def _granules(width, gran):
@@ -350,6 +361,204 @@ def check_rtlil(cfg, name):
     return {"task": name, "paths": 0, "solver_s": 0.0, "obligations": obs}
 
 
+def check_behaviour(cfg, name, broken=False):
+    """The netlist (`build_netlist`, evaluated under spec/nir_eval.py) and the emitted RTLIL (parsed, evaluated under the
+    published $memrd_v2 / $memwr_v2 semantics of spec/rtlil_eval.py) behave as the array-of-rows reference -- the same
+    reference the simulator's process code is proved against in check_config -- for ALL row contents, addresses, data,
+    enables and read-register contents: asynchronous read data now; rows and synchronous read registers after an edge of
+    each domain."""
+    from amaranth.hdl import Module, ClockDomain, Shape
+    from amaranth.hdl._ir import build_netlist, Fragment
+    from amaranth.hdl import _nir
+    from amaranth.lib.memory import Memory
+    from amaranth.back import rtlil
+    from harness import rtlil_parse as RP
+    from spec.nir_eval import NirEval
+    from spec.rtlil_eval import RtlilEval
+    width, signed, depth, wps, rps = cfg
+    init = [norm((3 * i + 1) & mask(width), width, signed) for i in range(depth)]
+
+    def build():
+        mem = Memory(shape=Shape(width, signed), depth=depth, init=init)
+        wports = [mem.write_port(domain=dom, granularity=g) for dom, g in wps]
+        rports = [mem.read_port(domain=dom, transparent_for=tuple(wports[i] for i in tr)) for dom, tr in rps]
+        for k, p in enumerate(wports):
+            p.addr.name, p.data.name, p.en.name = f"w{k}_addr", f"w{k}_data", f"w{k}_en"
+        for k, p in enumerate(rports):
+            p.addr.name, p.data.name = f"r{k}_addr", f"r{k}_data"
+            if p.domain != "comb":
+                p.en.name = f"r{k}_en"
+        m = Module()
+        clkname = {}
+        clks = []
+        for dn in sorted({d for d, _ in wps} | {d for d, _ in rps if d != "comb"}):
+            cd = ClockDomain(dn, reset_less=True)
+            m.domains += cd
+            clkname[dn] = cd.clk.name
+            clks.append(cd.clk)
+        m.submodules.mem = mem
+        ports = list(clks)
+        for p in wports:
+            ports += [p.en, p.addr, p.data]
+        for p in rports:
+            ports += [p.addr, p.data] + ([p.en] if p.domain != "comb" else [])
+        return m, ports, wports, rports, clkname
+    m, ports, wports, rports, clkname = build()
+    if not wports and not rports:
+        return {"task": name, "paths": 0, "solver_s": 0.0, "obligations": [
+            {"name": f"{name}::behaviour::no-ports", "kind": "post", "status": "proved", "backend": "closed", "time_s": 0.0}]}
+    nl = build_netlist(Fragment.get(m, None), ports)
+    m2, ports2, _w, _r, _c = build()
+    mods = RP.parse(rtlil.convert(m2, ports=ports2, emit_src=False))
+    top = nl.cells[0]
+    doms = sorted({d for d, _ in wps} | {d for d, _ in rps if d != "comb"})
+    mem_idx = [i for i, c in enumerate(nl.cells) if isinstance(c, _nir.Memory)]
+    srp_idx = [i for i, c in enumerate(nl.cells) if isinstance(c, _nir.SyncReadPort)]
+    out_names = {f"r{k}_data" for k in range(len(rports))}
+
+    def body(path):
+        rows = [path.var(f"row{i}", 0, mask(width)) for i in range(depth)]
+        inputs = {}
+        for nm, (_st, w) in top.ports_i.items():
+            inputs[nm] = 0 if nm in clkname.values() else path.var(f"in_{nm}", 0, mask(w))
+        wr = [(dom, inputs.get(f"w{k}_addr", 0), inputs.get(f"w{k}_data", 0), inputs.get(f"w{k}_en", 0), _granules(width, g))
+              for k, (dom, g) in enumerate(wps)]
+        old_r = [path.var(f"rreg{k}", 0, mask(width)) for k in range(len(rports))]
+        r_in = [(inputs.get(f"r{k}_addr", 0), inputs.get(f"r{k}_en", 1) if dom != "comb" else 1) for k, (dom, _t) in enumerate(rps)]
+        # netlist state
+        nstate = {}
+        for i in mem_idx:
+            nstate[i] = list(rows)
+        # map sync read port cells to port numbers through their data output nets
+        srp_of = {}
+        for k in range(len(rports)):
+            if rps[k][0] != "comb" and f"r{k}_data" in top.ports_o and len(top.ports_o[f"r{k}_data"]):
+                srp_of[top.ports_o[f"r{k}_data"][0] >> 16] = k
+        for i in srp_idx:
+            nstate[i] = old_r[srp_of[i]] if i in srp_of else 0
+        ev = NirEval(nl, inputs, nstate)
+        # RTLIL state
+        rstate = {}
+        rev = RtlilEval(mods, inputs=dict(inputs), state=rstate)
+        rd_cells = {}
+        for inst in rev.instances():
+            for memid in inst.m.memories:
+                rstate[(inst.path, memid)] = list(rows)
+            for c in inst.m.cells.values():
+                if c.kind == "$memrd_v2" and c.params["\\CLK_ENABLE"]:
+                    rd_cells[(inst.path, c.name)] = (inst, c)
+        # (names are not reliable across hierarchy levels: identify by behaviour instead -- set each register to its port's variable
+        #  by matching the top-level output it reaches)
+        for key, (inst, c) in rd_cells.items():
+            rstate[key] = None
+        for key in list(rd_cells):
+            for k in range(len(rports)):
+                if rps[k][0] == "comb":
+                    continue
+                trial = dict(rstate)
+                for k2 in rd_cells:
+                    trial[k2] = 0
+                trial[key] = mask(width) if width else 0
+                tv = RtlilEval(mods, inputs={nm: 0 for nm in inputs}, state={**trial, **{(i.path, mid): [0] * depth for i in rev.instances() for mid in i.m.memories}})
+                if width and int(tv.out(f"r{k}_data")) == mask(width):
+                    rstate[key] = old_r[k]
+                    rd_cells[key] = (rd_cells[key][0], rd_cells[key][1], k)
+            if rstate[key] is None:
+                rstate[key] = 0
+        # conflicts excluded as in check_config
+        for (i, a), (j, b) in itertools.combinations(enumerate(wr), 2):
+            if a[0] == b[0]:
+                for ga, (alo, ahi) in enumerate(a[4]):
+                    for gb, (blo, bhi) in enumerate(b[4]):
+                        if alo < bhi and blo < ahi:
+                            path.assume(Not(And(a[1] == b[1], ((a[3] >> ga) & 1) != 0, ((b[3] >> gb) & 1) != 0)))
+        # --- asynchronous reads
+        for k, (dom, _t) in enumerate(rps):
+            if dom == "comb" and width:
+                a = r_in[k][0]
+                exp = 0
+                for i in reversed(range(depth)):
+                    exp = ite(a == i, rows[i], exp)
+                if broken:
+                    exp = exp ^ 1
+                path.prove(f"{name}::behaviour::nir::async-read[{k}]", Implies(a < depth, to_sint(ev.value(top.ports_o[f"r{k}_data"])) == to_sint(exp)))
+                path.prove(f"{name}::behaviour::rtlil::async-read[{k}]", Implies(a < depth, to_sint(rev.out(f"r{k}_data")) == to_sint(exp)))
+        # --- edges
+        for edge_dom in doms:
+            exp_rows = list(rows)
+            for (dom, addr, data, en, grans) in wr:
+                if dom != edge_dom:
+                    continue
+                for i in range(depth):
+                    nv = exp_rows[i]
+                    for gk, (lo, hi) in enumerate(grans):
+                        gm = mask(hi - lo) << lo
+                        nv = ite(((en >> gk) & 1) != 0, (nv & ~gm) | (data & gm), nv)
+                    exp_rows[i] = ite(addr == i, nv, exp_rows[i])
+            exp_r = []
+            for k, (dom, tr) in enumerate(rps):
+                if dom == "comb":
+                    exp_r.append(None)
+                    continue
+                if dom != edge_dom:
+                    exp_r.append(old_r[k])
+                    continue
+                a, en = r_in[k]
+                cap = 0
+                for i in reversed(range(depth)):
+                    cap = ite(a == i, rows[i], cap)
+                for wi in tr:
+                    (wdom, waddr, wdata, wen, grans) = wr[wi]
+                    if wdom != edge_dom:
+                        continue
+                    for gk, (lo, hi) in enumerate(grans):
+                        gm = mask(hi - lo) << lo
+                        cap = ite(And(waddr == a, ((wen >> gk) & 1) != 0), (cap & ~gm) | (wdata & gm), cap)
+                exp_r.append((a, ite(en != 0, cap, old_r[k])))
+            # netlist
+            clk_net = None
+            for nm, (start, w) in top.ports_i.items():
+                if nm == clkname[edge_dom]:
+                    clk_net = start
+            ns = ev.next_state({clk_net: 1})
+            for i in mem_idx:
+                for r in range(depth):
+                    path.prove(f"{name}::behaviour::nir::{edge_dom}::row[{r}]", to_sint(ns[i][r]) & mask(width) == to_sint(exp_rows[r]))
+            for i in srp_idx:
+                if i in srp_of and exp_r[srp_of[i]] is not None:
+                    e = exp_r[srp_of[i]]
+                    if isinstance(e, tuple):
+                        path.prove(f"{name}::behaviour::nir::{edge_dom}::sync-read[{srp_of[i]}]", Implies(e[0] < depth, to_sint(ns[i]) & mask(width) == to_sint(e[1])))
+                    else:
+                        path.prove(f"{name}::behaviour::nir::{edge_dom}::read-held[{srp_of[i]}]", to_sint(ns[i]) == to_sint(e))
+            # RTLIL
+            cn = clkname[edge_dom]
+            before = RtlilEval(mods, inputs={**inputs, cn: 0}, state=rstate)
+            after = RtlilEval(mods, inputs={**inputs, cn: 1}, state=rstate)
+
+            def active(inst, c):
+                ib, cb_ = c04.find_cell(before, inst.path, c.name)
+                ia, ca_ = c04.find_cell(after, inst.path, c.name)
+                vb, va = int(ib.sig(cb_.ports["\\CLK"])), int(ia.sig(ca_.ports["\\CLK"]))
+                pol = 1 if c.params["\\CLK_POLARITY"] else 0
+                return vb != va and va == pol
+            rn = before.next_memories(active)
+            for inst in before.instances():
+                for memid in inst.m.memories:
+                    for r in range(depth):
+                        path.prove(f"{name}::behaviour::rtlil::{edge_dom}::row[{r}]", to_sint(rn[(inst.path, memid)][r]) & mask(width) == to_sint(exp_rows[r]))
+            for key, tup in rd_cells.items():
+                if len(tup) == 3 and exp_r[tup[2]] is not None:
+                    e = exp_r[tup[2]]
+                    if isinstance(e, tuple):
+                        path.prove(f"{name}::behaviour::rtlil::{edge_dom}::sync-read[{tup[2]}]", Implies(e[0] < depth, to_sint(rn[key]) & mask(width) == to_sint(e[1])))
+                    else:
+                        path.prove(f"{name}::behaviour::rtlil::{edge_dom}::read-held[{tup[2]}]", to_sint(rn[key]) == to_sint(e))
+        path.prove(f"{name}::behaviour::evaluated", True)
+    x = Exploration(f"{name}::behaviour", body).run()
+    return runner.from_exploration(name, x)
+
+
 def run_task(task):
     if task[0] == "rtlil":
         cfg = configs("thorough")[task[1]]
@@ -362,6 +571,12 @@ def run_task(task):
         return check_config(cfg, f"mem{task[1]}{cfg!r}".replace(" ", ""))
     if task[0] == "en-width":
         return check_en_width()
+    if task[0] == "behaviour":
+        cfg = configs("thorough")[task[1]]
+        return check_behaviour(cfg, f"mem{task[1]}{cfg!r}".replace(" ", ""))
+    if task[0] == "canary-behaviour":
+        cfg = configs("quick")[3]
+        return check_behaviour(cfg, "canary-behaviour", broken=True)
     if task[0] == "canary-transparency":
         cfg = configs("quick")[2]
         return check_config(cfg, "canary", break_transparency=True)
